@@ -135,10 +135,10 @@ func parseCaretRange(version string) ([]*constraint, error) {
 	// Special rules for caret ranges with zero versions
 	if v.major == 0 {
 		if v.minor == 0 {
-			// ^0.0.3 means >=0.0.3 <0.0.4 (only patch changes)
+			// ^0.0.3 means >=0.0.3 <0.0.4-0 (only patch changes, excludes prereleases from next patch)
 			return []*constraint{
 				{operator: ">=", version: v.normalize()},
-				{operator: "<", version: fmt.Sprintf("0.0.%d", v.patch+1)},
+				{operator: "<", version: fmt.Sprintf("0.0.%d-0", v.patch+1)},
 			}, nil
 		}
 		// ^0.2.3 means >=0.2.3 <0.3.0-0 (patch and minor changes, excludes prereleases from next minor)
